@@ -171,7 +171,9 @@ def evaluate_snapshots(ctx, cases, stream):
     reqs = [{'op': 'c17.hist', 'nrows': shape[0], 'ncols': shape[1], 'ops': [[r, [c, v]] for r, c, v in ops[:k]],
              'reads': reads_for(*shape, full=False)} for shape, ops, k in cases]
     reps = run_driver(reqs)
-    for (shape, ops, k), req, rep in zip(cases, reqs, reps):
+    reps_full = run_driver([{'op': 'c17.hist', 'nrows': shape[0], 'ncols': shape[1], 'ops': [[r, [c, v]] for r, c, v in ops],
+                             'reads': reads_for(*shape, full=False)} for shape, ops, k in cases])
+    for (shape, ops, k), req, rep, rep_full in zip(cases, reqs, reps, reps_full):
         with warnings.catch_warnings():
             warnings.simplefilter('ignore')
             b = CsrMatrixBuilder(shape=shape)
@@ -189,6 +191,9 @@ def evaluate_snapshots(ctx, cases, stream):
                     a[...] = 0
             later = [impl_read(m, rd) for rd in req['reads']]
             later2 = [impl_read(m2, rd) for rd in req['reads']]
+            # the builder read again after the remaining assignments (overwrites included) must give the matrix of the WHOLE history
+            m3 = ImmutableCsrMatrix(b.row, b.col, b.data, shape, dtype=int)
+            final_reads = [impl_read(m3, rd) for rd in req['reads']]
         except Exception as e:  # noqa
             ctx.violation('snapshot-raises', {'case': {'kind': 'snap', 'shape': list(shape), 'ops': [list(o) for o in ops], 'k': k},
                                               'impl': f'{type(e).__name__}: {e}'})
@@ -201,6 +206,12 @@ def evaluate_snapshots(ctx, cases, stream):
                 if not same(ir, mr):
                     bad.append({'when': which, 'read': rd, 'impl': ir, 'model': mr})
                     break
+        for rd, ir, mr in zip(req['reads'], final_reads, rep_full['reads']):
+            if 'ok' in mr and rd[0] == 'cols':
+                mr = {'ok': sorted(mr['ok'])}
+            if not same(ir, mr):
+                bad.append({'when': 'builder-read-again-after-all-assignments', 'read': rd, 'impl': ir, 'model': mr})
+                break
         canon_case = ['snap', shape, ops, k]
         nt = 0 < k < len(ops)
         ctx.case(canon_case, nt, stream, sample={'case': canon_case} if nt else None)
@@ -210,6 +221,45 @@ def evaluate_snapshots(ctx, cases, stream):
                 'case': {'kind': 'snap', 'shape': list(shape), 'ops': [list(o) for o in ops], 'k': k}, 'disagreements': bad,
                 'theorem': 'Hpv.Props.C17.builder_reads_like_dense (the matrix is a value: it represents the dense matrix of the '
                            'prefix it was taken from)'})
+
+
+def evaluate_wide(ctx, cases, stream):
+    """cases: (shape, ops) with a width beyond 2^8 / 2^16 and a handful of entries; reads at the stored columns, their neighbours and
+    their aliases modulo 256 and 65536 (where a narrowed index type would wrap), value queries per row; whole rows only for width <= 400"""
+    CsrMatrixBuilder, ImmutableCsrMatrix = _impl()
+    import warnings
+    reqs = []
+    for shape, ops in cases:
+        R, C = shape
+        cols = sorted({c for _, c, _ in ops})
+        probe_cols = sorted({x for c in cols for x in (c, c - 1, c + 1, c % 256, c % 65536, (c + 256) % C, C - 1, 0) if 0 <= x < C})
+        reads = [['cell', r, c] for r in range(R) for c in probe_cols] + [['cols', r, q] for r in range(R) for q in QUERY_VALUES]
+        if C <= 400:
+            reads += [['row', r] for r in range(R)]
+        reqs.append({'op': 'c17.hist', 'nrows': R, 'ncols': C, 'ops': [[r, [c, v]] for r, c, v in ops], 'reads': reads})
+    reps = run_driver(reqs)
+    for (shape, ops), req, rep in zip(cases, reqs, reps):
+        ctx.case(['wide', shape, ops], True, stream, sample={'shape': shape, 'ops': ops[:4]})
+        try:
+            with warnings.catch_warnings():
+                warnings.simplefilter('ignore')
+                b = CsrMatrixBuilder(shape=shape)
+            for r, c, v in ops:
+                b[r, c] = v
+            m = ImmutableCsrMatrix(b.row, b.col, b.data, shape, dtype=int)
+            bad = None
+            for rd, mr in zip(req['reads'], rep['reads']):
+                ir = impl_read(m, rd)
+                if 'ok' in mr and rd[0] == 'cols':
+                    mr = {'ok': sorted(mr['ok'])}
+                if not same(ir, mr):
+                    bad = {'read': rd, 'impl': ir, 'model': mr}
+                    break
+        except Exception as e:  # noqa
+            bad = {'impl': f'raises {type(e).__name__}: {e}'}
+        if bad:
+            ctx.violation('wide:' + str(bad.get('read', ['build'])[0]), {'case': {'kind': 'wide', 'shape': list(shape), 'ops': [list(o) for o in ops]},
+                                                                      'disagreement': bad, 'theorem': 'Hpv.Props.C17.builder_reads_like_dense'})
 
 
 def random_wf_csr(rng, dtype):
@@ -268,6 +318,14 @@ def run(ctx):
         ops = [(rng.randrange(R), rng.randrange(C), rng.choice([1, -1, 2, 3, 7])) for _ in range(rng.randrange(1, 25))]
         cases.append(((R, C), ops, rng.randrange(0, len(ops) + 1)))
     evaluate_snapshots(ctx, cases, 'random.snapshots')
+    # wide, very sparse matrices (column indices beyond 2^8 and 2^16)
+    cases = []
+    for C in (300, 300, 70000, 70000) + ((1000, 200000) if thorough else ()):
+        R = rng.randrange(1, 4)
+        ops = [(rng.randrange(R), rng.choice([C - 1, C - 20, 256 + rng.randrange(40), min(C - 1, 65536 + rng.randrange(40)), rng.randrange(C)]),
+                rng.choice([1, -1, 2, 7])) for _ in range(rng.randrange(2, 7))]
+        cases.append(((R, C), ops))
+    evaluate_wide(ctx, cases, 'wide-sparse')
     # hand-given well-formed CSR triples with the three dtypes
     cases = [random_wf_csr(rng, dt) for dt in ('int', 'float', 'bool') for _ in range(600 if thorough else 150)]
     evaluate(ctx, cases, 'random.csr-triples')
@@ -275,7 +333,9 @@ def run(ctx):
 
 def replay(ctx, data):
     c = data['case']
-    if c['kind'] == 'snap':
+    if c['kind'] == 'wide':
+        evaluate_wide(ctx, [(tuple(c['shape']), [tuple(o) for o in c['ops']])], 'replay')
+    elif c['kind'] == 'snap':
         evaluate_snapshots(ctx, [(tuple(c['shape']), [tuple(o) for o in c['ops']], c['k'])], 'replay')
     elif c['kind'] == 'hist':
         evaluate(ctx, [(tuple(c['shape']), [tuple(o) for o in c['ops']])], 'replay')
